@@ -8,17 +8,31 @@ counts.  Its members are every way the framework knows to write that class down:
     parse   the same trees printed as strings and parsed (subset stated in META.bound)
     dict    formula({atom: total}) in every insertion order of the distinct atoms
     arith   c1*formula(a1) + c2*formula(a2) + ..., the same with +=, and 2*(half the sum)
+    derived formula(f) of a member (plain / after .hill and str() were read / of its Hill form),
+            f.replace(X, a) of the member that holds a placeholder X for one entry, and
+            formula(d) of a dict object that was already used for another formula and then
+            updated in place by the caller
 Oracle per member f (h = f.hill):
-    (a) h.atoms == f.atoms                                    hill-atoms-differ
+    (a) h.atoms == f.atoms, atoms compared as OBJECTS                      hill-atoms-differ[:cause]
     (b) h is a flat list of distinct atoms in an order that breaks none of the rules of the
         statement (mc.ref.hill.must_precede; pairs the statement leaves open are not judged)
     (c) canonicity: h == h0 and h0 == h and str(h) == str(h0) for the first member's h0
     (d) idempotence: h.hill == h
     (e) once per class: the string written in the order of h0 (own printer), parsed, == its own
         Hill form (both directions of ==)
+    (f) reading .hill leaves f.structure as it was; formula(d) / formula(f) leave d / f as they were
 Members whose own atoms are not the intended totals (a parser / operator defect: C01, C02) are
-not members of the class: they are skipped and reported as a cap."""
+not members of the class: they are skipped and reported as a cap.
+
+Three blocks of classes:
+    main     the design's alphabet x counts {1, 2, 0.5}, n <= 3 / 4 entries, public table
+    special  the alphabet around the special symbols D and T (C, H, D, T in every spelling, their
+             ions, symbols alphabetically before / between / after C, D, H, T), on THREE tables in
+             one process: the public one, a private one with the same data and a private one with
+             edited masses and densities - in all six orders (rotating with the class)
+    tables   the main alphabet, n <= 2, on the same three tables in the same way"""
 import itertools
+import os
 from ..common import Acc, load_pt, close, chunks, rotate, jdump, MachineryError
 from ..ref import hill as R
 
@@ -35,89 +49,205 @@ ALPHABET = [
     # element of this alphabet (needed for the '%4d' -> '%d' mutation of the sort key)
     ("C[9]", "C", 9, 0, False),
 ]
+# The alphabet around D and T: carbon and hydrogen in every spelling (element, isotope, ion, isotope
+# ion; D = H[2], T = H[3]) and symbols that sort before C (B), between C and D (Ca, Cl), between D and
+# H (Dy), between H and T (He, O), after T (Ta, U: 'T' < 'Ta').
+SPECIAL = [
+    ("C", "C", 0, 0, False), ("H", "H", 0, 0, False), ("D", "H", 2, 0, True), ("T", "H", 3, 0, True),
+    ("H[1]", "H", 1, 0, False), ("H[2]", "H", 2, 0, True), ("H[3]", "H", 3, 0, True),
+    ("H{+}", "H", 0, 1, False), ("D{+}", "H", 2, 1, True), ("T{+}", "H", 3, 1, True),
+    ("H[1]{+}", "H", 1, 1, False), ("C{4+}", "C", 0, 4, False), ("C[13]", "C", 13, 0, False),
+    ("B", "B", 0, 0, False), ("Ca", "Ca", 0, 0, False), ("Cl", "Cl", 0, 0, False), ("Dy", "Dy", 0, 0, False),
+    ("He", "He", 0, 0, False), ("Ta", "Ta", 0, 0, False), ("U", "U", 0, 0, False), ("O{2-}", "O", 0, -2, False),
+]
 COUNTS = (1, 2, 0.5)
-TOK = dict((a[0], a) for a in ALPHABET)
+TOK = dict((a[0], a) for a in ALPHABET + SPECIAL)
+for _a in ALPHABET + SPECIAL:
+    if TOK[_a[0]] != _a:
+        raise MachineryError("token %s described twice" % _a[0])
+TOKENS = []
+for _a in ALPHABET + SPECIAL:
+    if _a[0] not in TOKENS:
+        TOKENS.append(_a[0])
+
+# tables: the public one, a private one with the same data, a private one with data of its own
+KINDS = ("public", "private", "private-edited")
+KIND_ORDERS = list(itertools.permutations(KINDS))
+
+
+def _edits():
+    """[(symbol, mass number, mass factor)] for every element / isotope under the tokens, and density
+    factors: the edited private table differs from the public one in every value a formula reads."""
+    out, seen = [], set()
+    for tok in TOKENS:
+        _, sym, A, q, own = TOK[tok]
+        for key in ((sym, 0), (sym, A)):
+            if key not in seen:
+                seen.add(key)
+                out.append((key[0], key[1], 1.0 + 0.03125 * (1 + len(out) % 7)))
+    return out
+
+
+EDITS = _edits()
+DENSITY_FACTOR = 1.5
 
 META = dict(
     level="model_checking", engine="E1",
-    technique="bounded-exhaustive enumeration of every spelling (order, grouping, constructor) of every small atom multiset",
-    rule=("classes = all multisets of n entries (atom spelling, count) over 21 spellings (20 atoms: D and H[2] are "
-          "one atom) x counts {1, 2, 0.5}; members of a class = every distinct permutation x every grouping "
+    technique="bounded-exhaustive enumeration of every spelling (order, grouping, constructor) of every small atom multiset, on the public and on private tables",
+    rule=("classes = all multisets of n entries (atom spelling, count) over an alphabet of spellings x counts; four "
+          "blocks: MAIN = 21 spellings (20 atoms: D and H[2] are one atom) x counts {1, 2, 0.5} on the public table; "
+          "SPECIAL = 21 spellings around the special symbols (C, H, D, T, H[1], H[2], H[3], H{+}, D{+}, T{+}, H[1]{+}, "
+          "C{4+}, C[13], B, Ca, Cl, Dy, He, Ta, U, O{2-}: 19 atoms, symbols alphabetically before, between and after "
+          "C, D, H, T) x count 1; SPECIAL-COUNTS = the same x counts {1, 2, 0.5}; TABLES = the MAIN alphabet.  The "
+          "last three blocks work every class through on THREE tables in one process - the public table, a private "
+          "table with the same data, a private table whose masses and densities were edited - in an order that "
+          "rotates through all six with the class, so every table is used before and after every other.  "
+          "Members of a class = every distinct permutation x every grouping "
           "(contiguous blocks, multiplier 1 or 2 with the inner counts divided, nested) built from a nested list, "
-          "the stated subset of them also printed and parsed, every insertion order of the dict constructor, and "
-          "four arithmetic spellings per permutation (one of them reading .hill and str() of every intermediate before use).  Distinct = distinct (class, member spelling).  Non-trivial = "
+          "the stated subset of them also printed and parsed (with table= on a private table), every insertion order "
+          "of the dict constructor, four arithmetic spellings per permutation (one of them reading .hill and str() of "
+          "every intermediate before use), and the derived members: formula(f) of a member (plain, after .hill / str() "
+          "/ .atoms were read, of its Hill form), f.replace(X, a) for every entry a (X a placeholder atom of the same "
+          "table; plain and after .hill was read), formula(d) of a dict object used before and updated in place.  "
+          "Atom counts are compared with the atoms as OBJECTS (an equal-looking atom of another table is another "
+          "atom).  Distinct = distinct (class, table, member spelling).  Non-trivial = "
           "a member of a class with >= 2 distinct atoms (the sort has something to order)."),
     bound=dict(
-        quick=("classes of n <= 3 entries.  dict (every insertion order), arith (4 spellings x every permutation), "
-               "struct flat x every permutation: complete.  struct groupings: n <= 2 all; n = 3 all 15 per permutation "
+        quick=("MAIN: classes of n <= 3 entries.  dict (every insertion order), arith (4 spellings x every permutation), "
+               "struct flat x every permutation, derived members: complete.  struct groupings: n <= 2 all; n = 3 all 15 per permutation "
                "for classes with all counts 1, the 7 single-level ones for the others.  parse: n <= 2 every permutation "
                "x every grouping; n = 3: classes with all counts 1 every permutation flat and every grouping of the first "
                "permutation; check (e) (the string written in the order of the Hill form) for every class of n <= 2 and "
-               "for the n = 3 classes with counts all 1 or {2, 1, 0.5}"),
-        thorough=("classes of n <= 4 entries.  n <= 3: struct (every permutation x all groupings), dict, arith complete; "
+               "for the n = 3 classes with counts all 1 or {2, 1, 0.5}.  SPECIAL: n <= 3 on three tables; n <= 2 as "
+               "MAIN n <= 2; n = 3 every permutation flat as struct and parsed, arith, dict, derived, check (e): complete "
+               "(no groupings).  SPECIAL-COUNTS and TABLES: n <= 2 on three tables, everything as MAIN n <= 2"),
+        thorough=("MAIN: classes of n <= 4 entries.  n <= 3: struct (every permutation x all groupings), dict, arith, derived complete; "
                   "parse: n <= 2 complete, n = 3 every permutation flat for every class, every permutation x every "
                   "grouping for all-ones classes, every class once in Hill order.  n = 4: struct flat x every "
                   "permutation and dict in every insertion order for every class; all 93 groupings per permutation "
                   "for all-ones classes; arith and the Hill-order string for all-ones classes and classes with counts "
                   "{2, 1, 1, 0.5}; parse for all-ones classes: every permutation flat, every single-level grouping of "
-                  "the first permutation")),
+                  "the first permutation; no derived members.  SPECIAL: n <= 4 on three tables, n = 4 like n = 3.  "
+                  "SPECIAL-COUNTS and TABLES as in the quick tier")),
     assumptions=[
-        "the order of D and T is not judged (symbol 'D'/'T' vs. hydrogen isotopes by mass number); only canonicity, "
-        "composition and idempotence are required of formulas containing them",
+        "'alphabetically by symbol' is read literally: the symbol of an atom is what it is written with, so D and T "
+        "(= H[2], H[3], and their ions) are neither carbon nor hydrogen but 'other atoms' filed under 'D' and 'T': "
+        "C, H, then B < Ca < Cl < D < Dy < He < O < T < Ta < U.  The unchanged library agrees (CH3D, HDO, CaD2, OT2 are "
+        "their own Hill forms).  The reading 'D is hydrogen-2: C, H, D, T, rest' would agree with the rules "
+        "carbon-and-hydrogen-before-D-T and D-before-T and not with D-T-alphabetical-by-own-symbol; only the first two "
+        "are judged, the place of D / T among the symbols other than C and H is left to canonicity",
         "the order of different charge states of one nuclide and of a natural element against its own isotopes is "
         "not judged (the statement orders isotopes of one element by mass number and nothing else); only canonicity",
+        "'exactly the same atom counts' means the same atom objects: the atoms of a formula over a private table are "
+        "the atoms of that table, whether or not its data differ from the public table's",
         "'a formula already written in that order' is the string whose atoms are listed in the order of the class's "
         "Hill form as produced by the library (after that order passed the order rules), printed by the framework's "
-        "own printer without separators",
+        "own printer without separators, parsed with table= on a private table",
         "Hill's refinement 'without carbon everything is alphabetical' is not what the statement says (C first, H "
         "second, unconditionally)",
         "equality is Formula.__eq__ as documented (structure equality), evaluated in both directions",
         "counts are dyadic rationals, so regrouped totals are exact",
         "one atom beyond the design's list (C[9]) so that mass numbers of different width occur in one element",
+        "reading .hill and constructing formula(d) / formula(f) are observations: the composition of f and the "
+        "content of d (atoms as objects, counts) afterwards are what they were (order inside d, memoised attributes "
+        "of f are not looked at)",
+        "the edited private table scales the mass of every element and isotope under the alphabet by 1 + k/32 "
+        "(k = 1..7) and the density of the elements by 1.5; nothing else of a private table is customised",
     ],
     level_text=("every member of every class inside the bound was built on the real implementation and its Hill form "
                 "compared with the reference order rules, with the Hill form of every other member of its class, with "
-                "its own Hill form and with the parsed string written in that order; nothing is claimed for atoms "
-                "outside the alphabet or larger formulas"),
-    level_note="trusted: mc.ref.hill (order rules, grouping generator, printer), Formula.atoms, dict equality",
+                "its own Hill form and with the parsed string written in that order, on the public table and - for "
+                "the blocks that say so - on two private tables in the same process; nothing is claimed for atoms "
+                "outside the alphabets or larger formulas"),
+    level_note="trusted: mc.ref.hill (order rules, grouping generator, printer), Formula.atoms, identity of atom objects",
 )
 
 
 # ------------------------------------------------------------------ environment
+_SERIAL = [0]
+REG = {}          # id(atom) -> (table kind, descriptor): every atom object any Env of this process knows
+
+
+class ArgumentAltered(Exception):
+    """A constructor changed the object it was given (what, before, after)."""
+
+
 class Env(object):
-    def __init__(self):
+    def __init__(self, kind="public"):
         pt = load_pt()
         from periodictable import formula
-        self.pt, self.formula = pt, formula
+        self.pt, self.formula, self.kind = pt, formula, kind
+        if kind == "public":
+            T = pt.elements
+            self.kw = {}
+        else:
+            import periodictable.core, periodictable.mass, periodictable.density
+            _SERIAL[0] += 1
+            T = periodictable.core.PeriodicTable("c19-%s-%d-%d" % (kind, os.getpid(), _SERIAL[0]))
+            periodictable.mass.init(T)
+            periodictable.density.init(T)
+            if kind == "private-edited":
+                for sym, A, factor in EDITS:
+                    a = getattr(T, sym)
+                    if A:
+                        a = a[A]
+                    else:
+                        if a._density is not None:
+                            a._density = a._density * DENSITY_FACTOR
+                    a._mass = a._mass * factor
+            self.kw = dict(table=T)
+        self.table = T
         self.atom = {}
         self.desc = {}       # id(atom) -> descriptor (sym, A, q, own)
         self.first_token = {}
-        for tok, sym, A, q, own in ALPHABET:
-            a = getattr(pt, sym)
+        self.keep = []       # the atom objects stay alive, so their ids stay theirs
+        for tok in TOKENS:
+            _, sym, A, q, own = TOK[tok]
+            a = getattr(T, sym)
             if A:
                 a = a[A]
             if q:
                 a = a.ion[q]
             self.atom[tok] = a
+            self.keep.append(a)
             self.desc[id(a)] = (sym, A, q, own)
             self.first_token.setdefault(id(a), tok)
-        if self.atom["D"] is not self.atom["H[2]"]:
-            raise MachineryError("D and H[2] are expected to be one atom")
+            if REG.setdefault(id(a), (kind, (sym, A, q, own))) != (kind, (sym, A, q, own)):
+                raise MachineryError("atom %s of the %s table is also %r" % (tok, kind, REG[id(a)]))
+        if self.atom["D"] is not self.atom["H[2]"] or self.atom["T"] is not self.atom["H[3]"]:
+            raise MachineryError("D and H[2] (T and H[3]) are expected to be one atom")
+        if self.atom["D{+}"] is not self.atom["D"].ion[1]:
+            raise MachineryError("D{+} is expected to be the ion of D")
+        if kind == "private-edited" and not self.atom["C"].mass > 1.01 * pt.elements.C.mass:
+            raise MachineryError("the edits of the private table did not take")
 
     def pyname(self, tok):
         _, sym, A, q, own = TOK[tok]
-        s = "pt.%s" % sym + ("[%d]" % A if A else "")
+        root = "pt" if self.kind == "public" else "T"
+        s = "%s.%s" % (root, sym) + ("[%d]" % A if A else "")
         if tok in ("D", "T"):
-            s = "pt." + tok
+            s = "%s.%s" % (root, tok)
         return s + (".ion[%d]" % q if q else "")
 
+    def prelude(self):
+        s = PRELUDE
+        if self.kind != "public":
+            s += ("from periodictable import mass, density\nfrom periodictable.core import PeriodicTable\n"
+                  "T = PeriodicTable('private'); mass.init(T); density.init(T)\n")
+        if self.kind == "private-edited":
+            s += ("for el in (%s):\n    if el._density is not None: el._density *= %r\n"
+                  % (", ".join("T.%s" % sym for sym, A, f in EDITS if not A), DENSITY_FACTOR))
+            s += "".join("T.%s%s._mass *= %r\n" % (sym, "[%d]" % A if A else "", f) for sym, A, f in EDITS)
+        return s
 
-_ENV = None
-def env():
-    global _ENV
-    if _ENV is None:
-        _ENV = Env()
-    return _ENV
+
+_ENVS = {}
+def env(kind="public"):
+    if kind not in _ENVS:
+        if kind not in KINDS:
+            raise MachineryError("unknown table kind %r" % (kind,))
+        _ENVS[kind] = Env(kind)
+    return _ENVS[kind]
 
 
 # ------------------------------------------------------------------ members
@@ -137,12 +267,50 @@ def build(E, spec):
     if kind == "struct":
         return F(_tree_struct(E, spec[1]))
     if kind == "parse":
-        return F(spec[1])
+        return F(spec[1], **E.kw)
     if kind == "dict":
         d = {}
         for tok, c in spec[1]:
             d[E.atom[tok]] = c
-        return F(d)
+        before = _dict_key(d)
+        f = F(d)
+        if _dict_key(d) != before:
+            raise ArgumentAltered("dict", before, _dict_key(d))
+        return f
+    if kind == "dict-reused":
+        # one dict object: used for a formula, updated in place by the caller, used again
+        d = {}
+        for tok, c in spec[1]:
+            d[E.atom[tok]] = c
+        F(d).hill
+        d.clear()
+        for tok, c in spec[2]:
+            d[E.atom[tok]] = c
+        before = _dict_key(d)
+        f = F(d)
+        if _dict_key(d) != before:
+            raise ArgumentAltered("dict", before, _dict_key(d))
+        return f
+    if kind == "copy":
+        how = spec[1]
+        f = build(E, spec[2])
+        if how == "observed":
+            f.hill; str(f); f.atoms
+        elif how == "of-hill":
+            f = f.hill
+        before = _atoms_key(f.atoms)
+        g = F(f)
+        if _atoms_key(f.atoms) != before:
+            raise ArgumentAltered("formula", before, _atoms_key(f.atoms))
+        return g
+    if kind == "replace":
+        # the member that holds the placeholder atom X in place of entry i, then X -> the entry's atom
+        xtok, i, seq = spec[1], spec[2], spec[3]
+        tree = [[c, (xtok if j == i else t)] for j, (t, c) in enumerate(seq)]
+        f = F(_tree_struct(E, tree))
+        if spec[4] == "observed":
+            f.hill; str(f)
+        return f.replace(E.atom[xtok], E.atom[seq[i][0]])
     if kind == "arith":
         how, seq = spec[1], spec[2]
         if how == "add":
@@ -180,9 +348,22 @@ def code(E, spec):
     if kind == "struct":
         return "formula(%s)" % _tree_code(E, spec[1])
     if kind == "parse":
-        return "formula(%r)" % spec[1]
+        return "formula(%r%s)" % (spec[1], ", table=T" if E.kw else "")
     if kind == "dict":
         return "formula({%s})" % ", ".join("%s: %r" % (E.pyname(t), c) for t, c in spec[1])
+    if kind == "dict-reused":
+        return "reused_dict([%s], [%s])" % tuple(", ".join("(%s, %r)" % (E.pyname(t), c) for t, c in part)
+                                                 for part in (spec[1], spec[2]))
+    if kind == "copy":
+        inner = code(E, spec[2])
+        return {"plain": "formula(%s)", "observed": "formula(observed(%s))", "of-hill": "formula(%s.hill)"}[spec[1]] % inner
+    if kind == "replace":
+        xtok, i, seq = spec[1], spec[2], spec[3]
+        tree = [[c, (xtok if j == i else t)] for j, (t, c) in enumerate(seq)]
+        inner = "formula(%s)" % _tree_code(E, tree)
+        if spec[4] == "observed":
+            inner = "observed(%s)" % inner
+        return "%s.replace(%s, %s)" % (inner, E.pyname(xtok), E.pyname(seq[i][0]))
     how, seq = spec[1], spec[2]
     if how == "add":
         return " + ".join("%r*formula(%s)" % (c, E.pyname(t)) for t, c in seq)
@@ -196,20 +377,32 @@ def code(E, spec):
 PRELUDE = ("import periodictable as pt\nfrom periodictable import formula\n"
            "def sum_iadd(parts):\n    f = formula()\n    for p in parts: f += p\n    return f\n"
            "def twice_observed(parts):\n    f = None\n    for c, a in parts:\n        a = formula(a); a.hill; str(a)\n"
-           "        g = c*a; g.hill; str(g)\n        f = g if f is None else f + g\n        f.hill; str(f)\n    return 2*f\n")
+           "        g = c*a; g.hill; str(g)\n        f = g if f is None else f + g\n        f.hill; str(f)\n    return 2*f\n"
+           "def observed(f):\n    f.hill; str(f); f.atoms\n    return f\n"
+           "def reused_dict(first, second):\n    d = dict(first); formula(d).hill\n    d.clear(); d.update(second)\n"
+           "    return formula(d)\n")
 
 
 def _flat(seq):
     return [[c, t] for t, c in seq]
 
 
-def plan(n, tier, entries):
+def plan(n, tier, entries, block="main"):
     """Which spellings a class of n entries gets (this IS the bound; META.bound describes it)."""
+    P = _plan(n, tier, entries, block)
+    P["derived"] = n <= 3 or block != "main"
+    return P
+
+
+def _plan(n, tier, entries, block):
     ones = all(c == 1 for t, c in entries)
     mixed = sorted(c for t, c in entries) == [0.5, 1, 1, 2]
     quick = tier == "quick"
     if n <= 2:
         return dict(group="all", arith=True, parse_flat=True, parse_group="all", parse_hill=True)
+    if block == "special":
+        # grouping does not reach the sort (the atoms are totalled first) and is the main block's subject
+        return dict(group="flat", arith=True, parse_flat=True, parse_group=None, parse_hill=True)
     if n == 3 and quick:
         distinct = sorted(c for t, c in entries) == [0.5, 1, 2]
         return dict(group="all" if ones else "single", arith=True, parse_flat=ones,
@@ -248,6 +441,21 @@ def members(E, entries, n, tier, P):
     tot = R.merged([(E.first_token[id(E.atom[t])], c) for t, c in entries])
     for order in itertools.permutations(list(tot)):
         yield ["dict", [[t, tot[t]] for t in order]]
+    if P.get("derived"):
+        seq0 = [[t, c] for t, c in perms[0]]
+        first = ["struct", _flat(perms[0])]
+        for how in ("plain", "observed", "of-hill"):
+            yield ["copy", how, first]
+        if P["parse_flat"]:
+            yield ["copy", "observed", ["parse", R.text(_flat(perms[0]), tok)]]
+        yield ["copy", "of-hill", ["dict", [[t, tot[t]] for t in tot]]]
+        inside = set(id(E.atom[t]) for t, c in entries)
+        xtok = [t for t in TOKENS if id(E.atom[t]) not in inside][0]
+        for i in range(n):
+            for obs in ("plain", "observed"):
+                yield ["replace", xtok, i, seq0, obs]
+        other = [[xtok, 1]] + [[t, 2 * tot[t]] for t in reversed(list(tot))]
+        yield ["dict-reused", other, [[t, tot[t]] for t in tot]]
 
 
 def _depth(tree):
@@ -261,8 +469,6 @@ def _depth(tree):
 # ------------------------------------------------------------------ oracle
 def _same_atoms(got, want):
     """Equality of two {atom: count} maps, zero counts ignored; atoms by identity."""
-    if got == want:
-        return True
     g = dict((id(a), c) for a, c in got.items() if c != 0)
     w = dict((id(a), c) for a, c in want.items() if c != 0)
     if set(g) != set(w):
@@ -270,8 +476,31 @@ def _same_atoms(got, want):
     return all(close(g[k], w[k], 1e-12, 0) for k in w)
 
 
+def _atoms_key(d):
+    """Content of an {atom: count} map, atoms as objects (order of insertion is not content)."""
+    return sorted((id(a), float(c)) for a, c in d.items())
+
+
+_dict_key = _atoms_key
+
+
+def _species(d):
+    """Table-blind content of an {atom: count} map: what the atoms are called, not which objects
+    (only used to name the cause of a composition difference that was found by identity)."""
+    out = {}
+    for a, c in d.items():
+        if c != 0:
+            out[str(a)] = out.get(str(a), 0) + c
+    return out
+
+
+def _same_counts(g, w):
+    return set(g) == set(w) and all(close(g[k], w[k], 1e-12, 0) for k in w)
+
+
 def _show_atoms(d):
-    return sorted((str(a), float(c)) for a, c in d.items())
+    return sorted(("%s@%s" % (a, REG[id(a)][0] if id(a) in REG else "an-object-of-no-table-of-this-check"), float(c))
+                  for a, c in d.items())
 
 
 def _norm(s):
@@ -287,10 +516,15 @@ def _typed_key(s):
     return id(s)
 
 
+ROUTES = {"dict": "dict-constructor", "dict-reused": "dict-used-before", "copy": "formula-of-formula", "replace": "replace"}
+
+
 class ClassCheck(object):
     """Runs the oracle over the members of one class."""
-    def __init__(self, E, entries, acc):
+    def __init__(self, E, entries, acc, tables_before=()):
         self.E, self.entries, self.acc = E, entries, acc
+        self.tables_before = list(tables_before)
+        self.block, self.tier = "main", "quick"
         self.want = {}
         for t, c in entries:
             a = E.atom[t]
@@ -304,23 +538,37 @@ class ClassCheck(object):
         self.distinct_atoms = len(self.want)
 
     def case(self, *specs):
-        return dict(entries=[[t, c] for t, c in self.entries], members=[list(s) for s in specs])
+        return dict(entries=[[t, c] for t, c in self.entries], members=[list(s) for s in specs],
+                    table=self.E.kind, tables_before=self.tables_before, block=self.block, tier=self.tier)
 
-    def snippet(self, *specs):
+    def want_code(self):
         E = self.E
-        lines = [PRELUDE.rstrip("\n")]
+        return "{%s}" % ", ".join("%s: %r" % (E.pyname(E.first_token[id(a)]), c) for a, c in self.want.items())
+
+    SAME = ("same = lambda x, y: sorted((id(a), float(c)) for a, c in x.items() if c) == "
+            "sorted((id(a), float(c)) for a, c in y.items() if c)   # atoms as objects")
+
+    def snippet(self, *specs, **kw):
+        E = self.E
+        asserts = kw.get("asserts")
+        lines = [E.prelude().rstrip("\n")]
+        if self.tables_before:
+            lines.append("# in the run the same class had been worked through on the table(s) %s before"
+                         % ", ".join(self.tables_before))
         for i, s in enumerate(specs):
             lines.append("f%d = %s" % (i, code(E, s)))
             lines.append("print(repr(f%d.structure), '->', repr(f%d.hill.structure), str(f%d.hill))" % (i, i, i))
-        if len(specs) == 2:
+        if asserts:
+            lines.extend(asserts)
+        elif len(specs) == 2:
             lines.append("assert f0.hill == f1.hill and str(f0.hill) == str(f1.hill)")
         else:
             lines.append("assert f0.hill.atoms == f0.atoms and f0.hill.hill == f0.hill")
         return "\n".join(lines) + "\n"
 
-    def viol(self, sig, specs, expected, observed, standalone=None):
+    def viol(self, sig, specs, expected, observed, standalone=None, asserts=None):
         self.acc.violation(sig, self.case(*specs), expected=expected, observed=observed,
-                           standalone=standalone or self.snippet(*specs))
+                           standalone=standalone or self.snippet(*specs, asserts=asserts))
 
     def member(self, spec):
         E, acc = self.E, self.acc
@@ -328,12 +576,25 @@ class ClassCheck(object):
         try:
             f = build(E, spec)
             A = f.atoms
+        except ArgumentAltered as e:
+            what, before, after = e.args
+            self.viol("constructor-alters-its-argument:" + what, [spec], "the %s as the caller left it" % what,
+                      "%d entries before, %d after; same content: %s" % (len(before), len(after), before == after))
+            return
         except Exception as e:
             # construction is C01 / C02; a member that cannot be built is not a member
             self.skipped += 1
             acc.count("members_not_built")
             return
         if not _same_atoms(A, self.want):
+            route = ROUTES.get(spec[0])
+            if route and self._inner_ok(spec):
+                # formula(dict) is the constructor of Hill forms, formula(f) and f.replace() hand its atoms on:
+                # what they were given was right, what they return is not
+                self.viol("%s-atoms-differ%s" % (route, self._cause(A, self.want)), [spec],
+                          _show_atoms(self.want), _show_atoms(A),
+                          asserts=[self.SAME, "assert same(f0.atoms, %s)" % self.want_code()])
+                return
             self.skipped += 1
             acc.count("members_not_in_class")
             return
@@ -347,9 +608,19 @@ class ClassCheck(object):
             self.viol("hill-raises:%s" % type(e).__name__, [spec], "a Hill form", "%s: %s" % (type(e).__name__, e))
             return
         acc.evaluations += 1
-        # (a) composition
+        # (f) reading the Hill form is an observation
+        try:
+            A2 = f.atoms
+        except Exception as e:
+            A2 = {}
+        if not _same_atoms(A2, A):
+            self.viol("hill-alters-the-composition-of-the-formula", [spec], _show_atoms(A), _show_atoms(A2))
+            return
+        # (a) composition, atoms as objects
         if not _same_atoms(hA, A):
-            self.viol("hill-atoms-differ", [spec], _show_atoms(A), _show_atoms(hA))
+            self.viol("hill-atoms-differ" + self._cause(hA, A), [spec], _show_atoms(A), _show_atoms(hA),
+                      asserts=[self.SAME, "assert same(f0.atoms, %s)" % self.want_code(),
+                               "assert same(f0.hill.atoms, f0.atoms)"])
             return
         key = _typed_key(hs)
         first_time = key not in self.seen
@@ -366,8 +637,12 @@ class ClassCheck(object):
             bad = R.order_violation([E.desc[i] for i in ids])
             if bad:
                 rule, first, second = bad
+                tok = dict((TOK[t][1:], t) for t in reversed(TOKENS))
                 self.viol("hill-order:" + rule, [spec],
-                          "%s before %s" % (_dstr(second), _dstr(first)), str(h))
+                          "%s before %s" % (_dstr(second), _dstr(first)), str(h),
+                          asserts=["listed = [a for c, a in f0.hill.structure]",
+                                   "place = lambda x: [a is x for a in listed].index(True)",
+                                   "assert place(%s) < place(%s)" % (E.pyname(tok[second]), E.pyname(tok[first]))])
                 return
             # (d) idempotence
             try:
@@ -380,7 +655,7 @@ class ClassCheck(object):
             if not ok:
                 why = "list-vs-tuple" if _norm(hh.structure) == _norm(hs) else "order-or-counts"
                 self.viol("idempotence:" + why, [spec], repr(hs), repr(hh.structure),
-                          standalone=PRELUDE + "h = %s.hill\nprint(repr(h.structure), repr(h.hill.structure))\n"
+                          standalone=E.prelude() + "h = %s.hill\nprint(repr(h.structure), repr(h.hill.structure))\n"
                                                "assert h.hill == h\n" % code(E, spec))
                 return
         # (c) canonicity
@@ -399,6 +674,34 @@ class ClassCheck(object):
             if str(h) != self.h0_str:
                 self.viol("canonicity:equal-but-printed-differently", [self.h0_spec, spec], self.h0_str, str(h))
                 return
+
+    def _cause(self, got, want):
+        """Names the kind of composition difference (found by identity of the atoms)."""
+        try:
+            if _same_counts(_species(got), _species(want)):
+                if any(id(a) in REG and REG[id(a)][0] != self.E.kind for a in got):
+                    return ":atoms-of-another-table"
+                return ":same-species-but-other-atom-objects"
+        except Exception:
+            pass
+        return ""
+
+    def _inner_ok(self, spec):
+        """Was the route given what the class intends?  (If not, the defect is the inner constructor's.)"""
+        E = self.E
+        try:
+            if spec[0] == "copy":
+                return _same_atoms(build(E, spec[2]).atoms, self.want)
+            if spec[0] == "replace":
+                xtok, i, seq = spec[1], spec[2], spec[3]
+                tree = [[c, (xtok if j == i else t)] for j, (t, c) in enumerate(seq)]
+                want = {}
+                for c, t in tree:
+                    want[E.atom[t]] = want.get(E.atom[t], 0) + c
+                return _same_atoms(E.formula(_tree_struct(E, tree)).atoms, want)
+            return True
+        except Exception:
+            return False
 
     def _why_differs(self, s, s0):
         E = self.E
@@ -450,13 +753,13 @@ class ClassCheck(object):
             self.viol("parsed-in-hill-order-ne-own-hill:" + why, [spec],
                       "formula(%r) == formula(%r).hill" % (s, s),
                       "%r vs %r" % (g.structure, gh.structure),
-                      standalone="from periodictable import formula\nf = formula(%r)\n"
-                                 "print(repr(f.structure), repr(f.hill.structure))\nassert f == f.hill\n" % s)
+                      standalone=E.prelude() + "f = %s\n"
+                                 "print(repr(f.structure), repr(f.hill.structure))\nassert f == f.hill\n" % code(E, spec))
 
 
 def _dstr(d):
     sym, A, q, own = d
-    s = sym + ("[%d]" % A if A else "")
+    s = R.written(d) if own else sym + ("[%d]" % A if A else "")
     if q:
         s += "{%s%s}" % (abs(q) if abs(q) > 1 else "", "+" if q > 0 else "-")
     return s
@@ -474,10 +777,11 @@ def _order_class(E, hs):
     return "-".join(out)
 
 
-def check_class(E, entries, acc, tier):
+def check_class(E, entries, acc, tier, block="main", tables_before=()):
     n = len(entries)
-    P = plan(n, tier, entries)
-    cc = ClassCheck(E, entries, acc)
+    P = plan(n, tier, entries, block)
+    cc = ClassCheck(E, entries, acc, tables_before)
+    cc.block, cc.tier = block, tier
     v0 = acc.vcount
     k = 0
     for spec in members(E, entries, n, tier, P):
@@ -494,39 +798,66 @@ def check_class(E, entries, acc, tier):
     return cc
 
 
-def classes(n):
-    types = [(a[0], c) for a in ALPHABET for c in COUNTS]
+BLOCKS = {
+    # block: (alphabet, counts, tables)
+    "main": (ALPHABET, COUNTS, False),
+    "tables": (ALPHABET, COUNTS, True),
+    "special": (SPECIAL, (1,), True),
+    "special-counts": (SPECIAL, COUNTS, True),
+}
+
+
+def classes(n, block="main"):
+    alphabet, counts, _ = BLOCKS[block]
+    types = [(a[0], c) for a in alphabet for c in counts]
     return itertools.combinations_with_replacement(types, n)
 
 
 def _shard(args):
-    tier, n, idx, nshards = args
-    E = env()
+    tier, block, n, idx, nshards = args
+    several = BLOCKS[block][2]
     acc = Acc()
-    for i, entries in enumerate(classes(n)):
+    for i, entries in enumerate(classes(n, block)):
         if i % nshards != idx:
             continue
-        cc = check_class(E, list(entries), acc, tier)
+        # every class of a block with several tables is worked through on all of them, in one process;
+        # the order rotates through all six, so every table is met before and after every other
+        order = KIND_ORDERS[(i // nshards) % len(KIND_ORDERS)] if several else ("public",)
+        done = []
+        v0 = acc.vcount
+        for kind in order:
+            cc = check_class(env(kind), list(entries), acc, tier, "special" if block == "special-counts" else block, done)
+            done.append(kind)
+            acc.outcome("table:" + kind)
+            acc.count("class_table_pairs")
+            if cc.skipped:
+                acc.count("classes_with_skipped_members")
+            if acc.vcount != v0:
+                break
         acc.count("classes")
-        acc.count("classes_n%d" % n)
-        if cc.skipped:
-            acc.count("classes_with_skipped_members")
+        acc.count("classes_n%d" % n if block == "main" else "classes_%s_n%d" % (block, n))
         if i % 4001 == 0:
-            acc.sample(dict(entries=[list(e) for e in entries],
+            acc.sample(dict(block=block, entries=[list(e) for e in entries], tables=list(order),
                             hill=cc.h0_str, members=acc.info.get("max_members_per_class")))
     return acc
+
+
+SHARDS = {"main": {1: 1, 2: 4, 3: 64, 4: 256}, "tables": {1: 1, 2: 12},
+          "special": {1: 1, 2: 2, 3: 24, 4: 192}, "special-counts": {1: 1, 2: 12}}
 
 
 def run(ctx):
     nmax = 3 if ctx.quick else 4
     jobs = []
-    for n in range(1, nmax + 1):
-        nsh = {1: 1, 2: 4, 3: 64, 4: 256}[n]
-        for idx in range(nsh):
-            jobs.append((ctx.tier, n, idx, nsh))
+    for block in ("main", "special", "tables", "special-counts"):
+        top = nmax if block in ("main", "special") else 2
+        for n in range(1, top + 1):
+            nsh = SHARDS[block][n]
+            for idx in range(nsh):
+                jobs.append((ctx.tier, block, n, idx, nsh))
     jobs = rotate(jobs, ctx.seed)
     # large shards first
-    jobs.sort(key=lambda j: -j[1])
+    jobs.sort(key=lambda j: -j[2])
     ctx.pmap(_shard, jobs)
     acc = ctx.acc
     acc.info["max_entries_completed"] = nmax
@@ -537,9 +868,14 @@ def run(ctx):
 
 
 def replay(ctx, case, signature=None):
-    E = env()
     entries = [(t, c) for t, c in case["entries"]]
-    cc = ClassCheck(E, entries, ctx.acc)
+    block, tier = case.get("block", "main"), case.get("tier", "quick")
+    for kind in case.get("tables_before", []):
+        # the history of the run: the same class on the tables that came first (not judged again)
+        check_class(env(kind), list(entries), Acc(), tier, block)
+    E = env(case.get("table", "public"))
+    cc = ClassCheck(E, entries, ctx.acc, case.get("tables_before", []))
+    cc.block, cc.tier = block, tier
     specs = case["members"]
     if signature and signature.startswith("parsed-in-hill-order"):
         # member 0 is the parsed string itself: rebuild the class reference from it, then run (e)
